@@ -1,8 +1,8 @@
 package harness
 
 import (
-	"os"
 	"fmt"
+	"os"
 	"sort"
 	"strings"
 	"time"
@@ -369,10 +369,11 @@ type crashState struct {
 	issued     map[string]map[int64]bool // bucket -> ids issued before k
 	nextAck    int                       // next workload op index not yet acked
 	nextIss    int
-	lastSyncFS int         // log index of the last global sync before k (-1 none)
-	destroyed  map[string]bool // keys whose destroy returned before k
-	recreated  map[string]bool // ... and that were created again before k
-	dropped    []*simos.Op // power-loss image under evaluation: dropped/torn ops
+	lastSyncFS int                                 // log index of the last global sync before k (-1 none)
+	failedEff  map[string]map[int64]map[int64]bool // bucket -> interval -> ids of writes that returned an ERROR before k (a request that fails as a whole may have applied some of its parts)
+	destroyed  map[string]bool                     // keys whose destroy returned before k
+	recreated  map[string]bool                     // ... and that were created again before k
+	dropped    []*simos.Op                         // power-loss image under evaluation: dropped/torn ops
 }
 
 func newCrashState(w *Workload, lt *lifetime, m *Model, exists map[string]*Bucket) *crashState {
@@ -451,6 +452,25 @@ func (cs *crashState) advance(k int) {
 			}
 			cs.destroyed[op.Key] = true
 		}
+		if !mk.ok && op.Kind == "write" {
+			if cs.failedEff == nil {
+				cs.failedEff = map[string]map[int64]map[int64]bool{}
+			}
+			for _, wr := range op.W {
+				for _, e := range reqEffects(wr) {
+					if e.b.Variable {
+						continue
+					}
+					if cs.failedEff[e.key] == nil {
+						cs.failedEff[e.key] = map[int64]map[int64]bool{}
+					}
+					if cs.failedEff[e.key][e.T] == nil {
+						cs.failedEff[e.key][e.T] = map[int64]bool{}
+					}
+					cs.failedEff[e.key][e.T][e.id] = true
+				}
+			}
+		}
 		if mk.ok {
 			switch op.Kind {
 			case "create":
@@ -470,6 +490,20 @@ func (cs *crashState) advance(k int) {
 		}
 		cs.nextAck++
 	}
+}
+
+// createInFlight: a create request was issued but had not returned at k.
+func (cs *crashState) createInFlight(k int) bool {
+	for i := cs.lt.from; i < cs.lt.to; i++ {
+		if cs.w.Ops[i].Kind != "create" {
+			continue
+		}
+		mk := cs.lt.marks[i]
+		if mk.issue >= 0 && mk.issue < k && (mk.ack < 0 || mk.ack >= k) {
+			return true
+		}
+	}
+	return false
 }
 
 // inflight returns the write op issued but not acknowledged at k (nil if none).
@@ -708,6 +742,9 @@ func (cs *crashState) check(prop string, k int, imgKind string, rc *recovered, i
 					}
 					if iid, infl := infEff[key][t]; infl && ok && got == iid {
 						continue
+					}
+					if ok && cs.failedEff[key][t][got] {
+						continue // written by a request that was answered with an error: partly applied
 					}
 					d := fmt.Sprintf("bucket %s interval %s: acknowledged write id %d", key, ts(t), id)
 					if ok {
@@ -1167,6 +1204,9 @@ func enumerateCrashPoints(w *Workload, lt *lifetime, model *Model, exists map[st
 				if rc.QErr[b.Key()] != nil {
 					allClean = false
 				}
+			}
+			if cs.createInFlight(k) {
+				allClean = false // a half-made bucket directory rejects every later write
 			}
 			for _, v := range vs {
 				v.Replay["workload"] = w.Describe()
